@@ -163,7 +163,15 @@ func (f *Frame) enterLoop(li *loopInfo, b *ssa.BasicBlock) {
 		// nothing
 	} else {
 		f.loopLocalWrites = nil
-		sorts, all := f.loopWrites(li)
+		sorts, all, maps := f.loopWrites(li)
+		if maps && !all {
+			// entries are added to / removed from maps: forget the content and the length of every
+			// map object that exists at this point, nothing else
+			limit := tb.BVU(32, uint64(freshBase+u.objCtr+1))
+			f.cur.mem = f.cur.mem.clone()
+			f.havocMaps(&f.cur.mem, limit)
+			f.cur.mem.m[mapLenKey] = u.mc.HavocObjs(f.cur.mem.m[mapLenKey], limit, u.mc.NewBase("lpml", BV64, nil))
+		}
 		if !all {
 			// function-level locals assigned in the loop
 			for _, lrg := range f.loopLocalWrites {
@@ -437,7 +445,7 @@ func rootAlloc(v ssa.Value) *ssa.Alloc {
 }
 
 // loopWrites: the slot sorts that instructions of the loop body may write (syntactic).
-func (f *Frame) loopWrites(li *loopInfo) (sorts []Sort, all bool) {
+func (f *Frame) loopWrites(li *loopInfo) (sorts []Sort, all bool, maps bool) {
 	L := f.u.W.layout
 	seen := map[Sort]bool{}
 	add := func(ss []Sort) {
@@ -470,7 +478,7 @@ func (f *Frame) loopWrites(li *loopInfo) (sorts []Sort, all bool) {
 					}
 					add(L.ElemSorts(x.Val.Type()))
 				case *ssa.MapUpdate:
-					all = true
+					maps = true // map contents live in their own state: memory cells are untouched
 				case *ssa.Go, *ssa.Select, *ssa.Send:
 					all = true
 				case ssa.CallInstruction:
@@ -484,7 +492,9 @@ func (f *Frame) loopWrites(li *loopInfo) (sorts []Sort, all bool) {
 						switch cal.Name() {
 						case "copy", "append":
 							add(L.ElemSorts(c.Args[0].Type().Underlying().(*types.Slice).Elem()))
-						case "delete", "clear":
+						case "delete":
+							maps = true
+						case "clear":
 							all = true
 						}
 					case *ssa.Function:
